@@ -38,6 +38,7 @@ def decodeDecision : String → Except String Decision
   | "deny" => pure .deny
   | "noopinion" => pure .noOpinion
   | "error" => pure .error
+  | "error403" => pure .error
   | s => throw s!"bad decision {s}"
 
 /-- the scripted policy: `{"default": d, "deny": [{grp,res,sub,ns,name,d}…]}` — the first rule whose five attributes equal the
@@ -86,9 +87,11 @@ def doRun (a : Json) : Except String Json := do
   let (recvJ, ctxJ) := match out with
     | .forwarded recv u => (encodeHeaders (identityPart recv), encodeIdentity u)
     | _ => (Json.arr #[], Json.null)
-  let calls : List ImpReq := match parse raw with
-    | none => []
-    | some h => (buildImpersonationRequests (authnStrip h)).getD []
+  -- the records the TARGET CLUSTER is asked about (as the SubjectAccessReview carries them); none when the review cannot be
+  -- sent for this requestor
+  let calls : List ImpReq := match parse raw, auth with
+    | some h, some u => if (wrapRequest [] u).isNone then [] else (buildImpersonationRequests (authnStrip h)).getD []
+    | _, _ => []
   let expJ := match exp with
     | .answered s => J.obj [("kind", Json.str "answered"), ("status", J.nat s)]
     | .forward id => J.obj [("kind", Json.str "forward"), ("id", encodeIdentity id),
@@ -102,16 +105,17 @@ def doRun (a : Json) : Except String Json := do
           let n ← J.getHex e "n"
           let v ← J.getHex e "v"
           pure (n, [v])
-      pure (Json.arr ((judge token upgrade exp ups).map fun c => Json.str c.name).toArray)
+      pure (Json.arr ((judgeCluster token upgrade raw auth az ups).map fun c => Json.str c.name).toArray)
   pure <| J.obj [
     ("outcome", Json.str (outcomeName out)),
     ("recv", recvJ),
     ("ctxUser", ctxJ),
-    ("calls", Json.arr (calls.map fun r => encodeAttrs (attrsFor r)).toArray),
+    ("calls", Json.arr (calls.map fun r => encodeAttrs (jsonAttrs (attrsFor r))).toArray),
+    ("recordsCarried", J.bool (recordsCarried raw)),
     ("required", Json.arr ((if impersonationRequested raw && !malformed raw then requiredRecords raw else []).map encodeAttrs).toArray),
     ("expect", expJ),
     ("impRequested", J.bool (impersonationRequested raw)),
-    ("judgeModel", Json.arr ((judge token upgrade exp modelUpstream).map fun c => Json.str c.name).toArray),
+    ("judgeModel", Json.arr ((judgeCluster token upgrade raw auth az modelUpstream).map fun c => Json.str c.name).toArray),
     ("judgeImpl", judgeImpl)]
 
 /-- `C02.escape {key}`: `headerKeyEscape`, and what the upstream decodes from the canonicalised header name -/
@@ -123,11 +127,17 @@ def doEscape (a : Json) : Except String Json := do
     ("decoded", J.hex (unescapeExtraKey (toLower (name.drop hImpExtraPrefix.length)))),
     ("unescaped", match pathUnescape e with | some x => J.hex x | none => Json.null)]
 
+/-- `C02.json {s}`: the string as a JSON round trip carries it -/
+def doJson (a : Json) : Except String Json := do
+  let x ← J.getHex a "s"
+  pure <| J.obj [("carried", J.hex (jsonCarried x))]
+
 /-- `handle method args`: `none` when the method is unknown. -/
 def handle (m : String) (a : Json) : Option (Except String Json) :=
   match m with
   | "run" => some (doRun a)
   | "escape" => some (doEscape a)
+  | "json" => some (doJson a)
   | _ => none
 
 end KG.Driver.C02
